@@ -134,6 +134,9 @@ def ill_cases(rng):
         for integer in (False, True):
             out.append({"cls": "missing-price-on-open-position", "gap": rng.randint(2, T - 1), "short": short, "integer": integer})
         out.append({"cls": "missing-coupon-on-open-position", "gap": rng.randint(2, T - 1), "short": short})
+        # ... also where the open position has no weight: a hedge (notional 0 by definition) next to a bond, under either kind of parent
+        for parent in ("fi", "mv"):
+            out.append({"cls": "missing-coupon-on-open-position", "gap": rng.randint(2, T - 1), "short": short, "hedge": True, "parent": parent})
     out.append({"cls": "duplicate-tickers", "n": rng.randint(2, 4)})
     out.append({"cls": "zero-base-return", "fi": False, "how": "fee"})
     out.append({"cls": "zero-base-return", "fi": False, "how": "adjust-nonflow"})
@@ -193,9 +196,20 @@ def run_ill(ctx, bt, c):
             data = pd.DataFrame({"x": [100.0] * T}, index=dates)
             cp = pd.DataFrame({"x": [0.5] * T}, index=dates)
             cp.loc[dates[c["gap"]], "x"] = np.nan
-            s = bt.FixedIncomeStrategy("s", children=[core.CouponPayingSecurity("x")])
-            s.setup(data, coupons=cp)
-            s.update(dates[0])
+            if c.get("hedge"):
+                data["y"] = 50.0
+                cp["y"] = 0.25
+                kids = [core.CouponPayingSecurity("y"), core.CouponPayingHedgeSecurity("x")]
+                s = (bt.FixedIncomeStrategy if c["parent"] == "fi" else core.Strategy)("s", children=kids)
+                s.setup(data, coupons=cp)
+                if c["parent"] == "mv":
+                    s.adjust(100000.0)
+                s.update(dates[0])
+                s.transact(20.0, "y")
+            else:
+                s = bt.FixedIncomeStrategy("s", children=[core.CouponPayingSecurity("x")])
+                s.setup(data, coupons=cp)
+                s.update(dates[0])
             s.transact(-10.0 if c["short"] else 10.0, "x")
             for d in dates[1:]:
                 s.update(d)
